@@ -237,6 +237,7 @@ def finish(prop, tier, level, coverage, violations, t0, assumptions=(), max_repo
     known = load_known(prop)
     matched = {}
     new = {}
+    known_examples = {}
     for v in violations:
         hit = None
         for e in known:
@@ -254,6 +255,7 @@ def finish(prop, tier, level, coverage, violations, t0, assumptions=(), max_repo
         if hit is not None:
             matched.setdefault(hit['id'], [hit, 0, v.signature])
             matched[hit['id']][1] += 1
+            known_examples.setdefault(hit['id'], []).append({'signature': v.signature, 'detail': v.detail})
         else:
             new.setdefault(v.signature, v)
     for kid, (e, n, sig) in sorted(matched.items()):
@@ -262,6 +264,8 @@ def finish(prop, tier, level, coverage, violations, t0, assumptions=(), max_repo
         os.makedirs(os.path.join(BUILD, 'tmp'), exist_ok=True)
         with open(os.path.join(BUILD, 'tmp', prop + '.violations.json'), 'w') as f:
             json.dump([{'signature': v.signature, 'detail': v.detail} for v in new.values()], f, indent=1, default=str)
+        with open(os.path.join(BUILD, 'tmp', prop + '.known.json'), 'w') as f:
+            json.dump({k: x[:5] for k, x in known_examples.items()}, f, indent=1, default=str)
     except Exception:
         pass
     rdir = os.path.join(ROOT, 'replay', prop)
